@@ -304,4 +304,43 @@ Proof.
     intros [] s2 Hs2. split; [rewrite Hs2; exact HI1|exact Hp].
 Qed.
 
+(* ------------------------------------------------------------------ serde *)
+
+(* inserting the elements of an enumeration of a map one by one into an empty map rebuilds it *)
+Lemma ext_rebuild : forall (l : list elem) (m0 : gmap N elem),
+  NoDup (map ek l) -> (forall e, e ∈ l -> m0 !! ek e = None) ->
+  ext m0 (map elem3 l) = list_to_emap l ∪ m0.
+Proof.
+  induction l as [|e l IH]; intros m0 Hnd Hdis.
+  - cbn. change (list_to_emap []) with (∅ : gmap N elem). rewrite (left_id_L ∅ (∪)). reflexivity.
+  - cbn [map] in *. apply NoDup_cons in Hnd as [Hne Hnd]. unfold ext. cbn [fold_left]. fold (ext (ext1 m0 (elem3 e)) (map elem3 l)).
+    assert (H1 : ext1 m0 (elem3 e) = <[ek e := e]> m0).
+    { unfold ext1, elem3. rewrite (Hdis e) by left. destruct e; reflexivity. }
+    rewrite H1, IH; [|exact Hnd|].
+    + rewrite list_to_emap_cons. rewrite <- insert_union_r, insert_union_l; [reflexivity|].
+      destruct (list_to_emap l !! ek e) as [x|] eqn:E; [|reflexivity]. exfalso.
+      apply list_to_emap_key in E as [Hk Hin]; [|exact Hnd]. apply Hne. rewrite <- Hk. apply elem_of_list_fmap. eauto.
+    + intros x Hx. rewrite lookup_insert_ne; [apply Hdis; right; exact Hx|].
+      intros Heq. apply Hne. rewrite Heq. apply elem_of_list_fmap. eauto.
+Qed.
+
+Lemma ext_roundtrip (l : list elem) : NoDup (map ek l) -> ext ∅ (map elem3 l) = list_to_emap l.
+Proof. intros Hnd. rewrite ext_rebuild; [apply (right_id_L ∅ (∪))|exact Hnd|intros; apply lookup_empty]. Qed.
+
+Lemma map_deser_in_place_spec items hint s :
+  Inv R ES (s_rt s) ->
+  wp (map_deser_in_place c items hint)
+     (fun _ s' => Inv R ES (s_rt s') /\ rt_abs (s_rt s') = ext ∅ items) XU s.
+Proof.
+  intros HI. unfold map_deser_in_place. apply wp_bind. apply (rt_clear_spec c); [exact HI|].
+  intros s1 HI1 Habs1 _ _. apply wp_bind.
+  assert (Hc : cautious hint <= usize_max).
+  { unfold cautious. pose proof cautious_fits. pose proof (N.le_min_r hint 4096). lia. }
+  apply (rt_reserve_spec c); [exact HI1|exact Hc| | |].
+  - intros s2 (HI2 & Habs2 & _). eapply wp_conseq; [apply (insert_all_spec items s2 HI2)| |]; [|auto].
+    intros [] s3 [HI3 Habs3]. split; [exact HI3|]. rewrite Habs3, Habs2, Habs1. reflexivity.
+  - discriminate.
+  - intros p s2 (HI2 & Hp & _) _. split; [exact HI2|exact Hp].
+Qed.
+
 End MapProofs.
